@@ -12,6 +12,8 @@ import (
 	"regexp"
 	"sort"
 	"strings"
+	"sync"
+	"time"
 
 	"github.com/ethereum/go-ethereum/common"
 	"github.com/ethereum/go-ethereum/common/hexutil"
@@ -45,7 +47,9 @@ import (
 //	    k = keccak of the stored payload (stored bytes minus the 4-byte SSZ offset), - if nothing was stored
 //	raw <key> <content> | v:<r> p:<r>      content key / content that the SSZ layer rejects (never reaches the trie code)
 //	nib <bytes> | ok <nibbles> / err       Nibbles.Deserialize
-//	hist <n> <step>@... | <obs>@...@S:<store>   a sequence of items on ONE validator and ONE storage (see c13hist)
+//	hist <n> <step>@... | <obs>@...@S:<store>   a sequence of items on ONE validator and ONE storage (see c13hist); a step has a
+//	    15th field 1 = the backing store's Put fails during this step (observable p:ok-store-failed)
+//	conc <step a>@<step b> | v:<a>@v:<b>        two OVERLAPPING ValidateContent calls on one validator (see c13conc)
 func init() { registry["C13"] = runC13 }
 
 // ---------------------------------------------------------------- oracle
@@ -69,6 +73,7 @@ func (o *c13Oracle) GetBlockHeaderByHash(hash []byte) (*types.Header, error) {
 // ---------------------------------------------------------------- case = decoded pieces
 
 type c13case struct {
+	storeFail bool // histories: the backing store's Put fails during this step
 	tag       string
 	kind      string // atn csn cbc
 	oracle    []byte // nil = header source fails
@@ -262,7 +267,8 @@ func c13hist(c *Ctx, steps []*c13case) {
 	script := &c13Scripted{}
 	val := state.NewStateValidator(script)
 	mock := storage.NewMockStorage()
-	st := state.NewStateStorage(mock, nil)
+	faulty := &c13FaultStore{ContentStorage: mock}
+	st := state.NewStateStorage(faulty, nil)
 	var fs, obs []string
 	for _, k0 := range steps {
 		key, content := k0.serialize()
@@ -283,11 +289,19 @@ func c13hist(c *Ctx, steps []*c13case) {
 		} else if err != nil {
 			v = "err"
 		}
+		sf := "0"
+		if k0.storeFail {
+			sf = "1"
+		}
 		if v == "ok" {
+			faulty.failNext = k0.storeFail
+			faulty.failed = false
 			if pn, msg := guard(func() { err = st.Put(key, id[:], content) }); pn {
 				p = "panic:" + msg
 			} else if err != nil {
 				p = "err"
+			} else if faulty.failed {
+				p = "ok-store-failed" // state.Storage.Put logs the store's error and returns nil
 			} else if got, ok := mock.(*storage.MockStorage).Db[string(id[:])]; ok {
 				p = "ok:" + hx(got)
 				kk = c13storedHash(got)
@@ -297,7 +311,11 @@ func c13hist(c *Ctx, steps []*c13case) {
 		}
 		c.Count("hist_step_" + strings.SplitN(k.tag, "_", 2)[0])
 		c.Count("hist_v_" + strings.SplitN(v, ":", 2)[0])
-		fs = append(fs, strings.Join(append(c13fields(k), hx(id[:])), "^"))
+		faulty.failNext = false
+		if k0.storeFail {
+			c.Count("hist_store_fault")
+		}
+		fs = append(fs, strings.Join(append(c13fields(k), hx(id[:]), sf), "^"))
 		obs = append(obs, "v:"+v+",p:"+p+",k:"+kk)
 	}
 	if len(fs) == 0 {
@@ -315,6 +333,156 @@ func c13hist(c *Ctx, steps []*c13case) {
 	c.Count("hist")
 	c.Count(fmt.Sprintf("hist_len_%d", len(fs)))
 	c.Emit("hist %d %s | %s@S:%s", len(fs), strings.Join(fs, "@"), strings.Join(obs, "@"), fin)
+}
+
+// backing store whose next Put can be made to fail (scripted store fault)
+type c13FaultStore struct {
+	storage.ContentStorage
+	failNext, failed bool
+}
+
+func (f *c13FaultStore) Put(contentKey []byte, contentId []byte, content []byte) error {
+	if f.failNext {
+		f.failNext, f.failed = false, true
+		return storage.ErrInsufficientRadius
+	}
+	return f.ContentStorage.Put(contentKey, contentId, content)
+}
+
+// ---------------------------------------------------------------- overlapping calls on ONE validator
+
+// header source whose FIRST lookup announces itself and waits for the gate (bounded), as in harness/c03.go
+type c13Gated struct {
+	mu      sync.Mutex
+	roots   map[string][]byte
+	calls   int
+	entered chan struct{}
+	gate    chan struct{}
+}
+
+func (o *c13Gated) GetHistoricalSummaries(epoch uint64) (capella.HistoricalSummaries, error) {
+	return nil, errors.New("not used")
+}
+func (o *c13Gated) GetFinalizedStateRoot() ([]byte, error) { return nil, errors.New("not used") }
+func (o *c13Gated) GetBlockHeaderByHash(hash []byte) (*types.Header, error) {
+	o.mu.Lock()
+	o.calls++
+	first := o.calls == 1
+	o.mu.Unlock()
+	if first {
+		close(o.entered)
+		select {
+		case <-o.gate:
+		case <-time.After(150 * time.Millisecond):
+		}
+	}
+	r, ok := o.roots[string(hash)]
+	if !ok {
+		return nil, errors.New("unknown block")
+	}
+	return &types.Header{Root: common.BytesToHash(r)}, nil
+}
+
+// c13conc validates item a and item b on ONE validator with OVERLAPPING calls: a runs in a goroutine and waits inside its
+// header lookup until b has been validated completely.  Line:
+//
+//	conc <step a>@<step b> | v:<a>@v:<b>         (step = the 13 val fields joined by ^)
+//
+// Each verdict must be the verdict of that item alone (C13_history_step_independent: a function of the item and of the
+// header answer).
+func c13conc(c *Ctx, a0, b0 *c13case) {
+	ka, ca := a0.serialize()
+	kb, cb := b0.serialize()
+	a, b := c13decode(ka, ca), c13decode(kb, cb)
+	if a == nil || b == nil {
+		return
+	}
+	a.tag, a.oracle, b.tag, b.oracle = a0.tag, a0.oracle, b0.tag, b0.oracle
+	if bytes.Equal(a.blockHash, b.blockHash) && !bytes.Equal(a.oracle, b.oracle) {
+		return // one header source cannot give two answers for one hash
+	}
+	o := &c13Gated{roots: map[string][]byte{}, entered: make(chan struct{}), gate: make(chan struct{})}
+	if a.oracle != nil {
+		o.roots[string(a.blockHash)] = a.oracle
+	}
+	if b.oracle != nil {
+		o.roots[string(b.blockHash)] = b.oracle
+	}
+	val := state.NewStateValidator(o)
+	run := func(key, content []byte) string {
+		var err error
+		if pn, msg := guard(func() { err = val.ValidateContent(key, content) }); pn {
+			return "panic:" + msg
+		} else if err != nil {
+			return "err"
+		}
+		return "ok"
+	}
+	done := make(chan string, 1)
+	go func() { done <- run(ka, ca) }()
+	va, finished := "", false
+	select {
+	case <-o.entered: // a is inside its header lookup
+	case va = <-done: // a returned without a lookup
+		finished = true
+		o.mu.Lock()
+		o.calls++ // b's lookup must not be taken for the first one
+		o.mu.Unlock()
+	case <-time.After(2 * time.Second):
+	}
+	vb := run(kb, cb)
+	close(o.gate)
+	if !finished {
+		va = <-done
+	}
+	c.Count("conc")
+	c.Count("conc_a_" + strings.SplitN(va, ":", 2)[0])
+	c.Emit("conc %s@%s | v:%s@v:%s", strings.Join(c13fields(a), "^"), strings.Join(c13fields(b), "^"), va, vb)
+}
+
+// c13concurrent: pairs over one world.  a = a storage-node / bytecode item whose KEY names account X while its content is
+// the (genuine) account + storage proof of contract Y; b = an honest item of Y.  Also honest/honest pairs (both accepted).
+func c13concurrent(c *Ctx, r *Rng, n int) {
+	for done := 0; done < n; {
+		w := c13makeWorld(r, 3+r.Intn(20), 2+r.Intn(2), 1+r.Intn(6))
+		var perContract [][]*c13case
+		for _, ct := range w.contracts {
+			ap := w.accountProof(ct.addrHash)
+			l := []*c13case{{tag: "honest", kind: "cbc", oracle: w.acct.root, blockHash: w.blockHash, addrHash: ct.addrHash, keyHash: keccak(ct.code),
+				code: ct.code, acctProof: ap}}
+			for _, p := range ct.storage.paths {
+				pr := ct.storage.proof(p)
+				l = append(l, &c13case{tag: "honest", kind: "csn", oracle: w.acct.root, blockHash: w.blockHash, addrHash: ct.addrHash, path: []byte(p),
+					keyHash: keccak(pr[len(pr)-1]), acctProof: ap, mainProof: pr})
+			}
+			perContract = append(perContract, l)
+		}
+		for rep := 0; rep < 12 && done < n; rep++ {
+			y := r.Intn(len(perContract))
+			x := (y + 1 + r.Intn(len(perContract)-1)) % len(perContract)
+			b := perContract[y][r.Intn(len(perContract[y]))].clone()
+			a := perContract[y][r.Intn(len(perContract[y]))].clone()
+			switch r.Intn(4) {
+			case 0: // honest item of X overlapping an honest item of Y
+				a = perContract[x][r.Intn(len(perContract[x]))].clone()
+				a.tag = "conc-honest-other-contract"
+			case 1: // the same contract twice
+				a.tag = "conc-honest-same-contract"
+			default: // Y's proofs under a key that names X (another contract, or some other account)
+				a.tag = "conc-foreign-address"
+				if r.Bool() {
+					a.addrHash = w.contracts[x].addrHash
+				} else {
+					a.addrHash = w.acct.keys[r.Intn(len(w.acct.keys))]
+					if bytes.Equal(a.addrHash, b.addrHash) {
+						a.addrHash = w.contracts[x].addrHash
+					}
+				}
+			}
+			c13conc(c, a, b)
+			done++
+		}
+	}
 }
 
 // ---------------------------------------------------------------- non-canonical compact (hex-prefix) flags
@@ -573,8 +741,18 @@ func c13histories(c *Ctx, r *Rng, n int) {
 				}
 				k.tag, k.code = wc[j].tag, wc[j].code
 			}
+			if r.Intn(6) == 0 {
+				k.storeFail = true
+			}
 			steps = append(steps, k)
 		}
+		c13hist(c, steps)
+	}
+	// directed: accepted items, one of them hitting a failing backing store, followed by further accepted items
+	for i := 0; i < 12; i++ {
+		x := r.Intn(3)
+		steps := []*c13case{pick(x), pick(x), pick(other(x)), pick(x), pick(x)}
+		steps[1+r.Intn(2)].storeFail = true
 		c13hist(c, steps)
 	}
 }
@@ -1606,7 +1784,10 @@ func c13replay(c *Ctx, lines []string) {
 			c13nib(c, unhx(f[1]))
 		case "raw":
 			c13raw(c, unhx(f[1]), unhx(f[2]))
-		case "hist":
+		case "hist", "conc":
+			if f[0] == "conc" {
+				f = []string{"conc", "2", f[1]}
+			}
 			if len(f) < 3 {
 				continue
 			}
@@ -1621,7 +1802,16 @@ func c13replay(c *Ctx, lines []string) {
 				if g[2] != "!" {
 					k.oracle = unhx(g[2])
 				}
+				if len(g) >= 15 && g[14] == "1" {
+					k.storeFail = true
+				}
 				steps = append(steps, k)
+			}
+			if f[0] == "conc" {
+				if len(steps) == 2 {
+					c13conc(c, steps[0], steps[1])
+				}
+				continue
 			}
 			c13hist(c, steps)
 		case "val":
@@ -1757,6 +1947,13 @@ func runC13(c *Ctx) {
 		nhist = c.N / 8
 	}
 	c13histories(c, r, nhist)
+
+	// 3c. overlapping calls on one validator (gated header source)
+	nconc := 60 + 120*scale
+	if c.N > 0 {
+		nconc = c.N / 8
+	}
+	c13concurrent(c, r, nconc)
 
 	// 4. honest worlds: account trie + contracts with storage tries, every hashed node as the target
 	type plan struct{ accts, contracts, slots, budget int }
